@@ -701,6 +701,7 @@ type checker struct {
 	scratch   string
 	seq       atomic.Int64
 	pollsSeen sync.Map
+	obsSeen   sync.Map
 	maxPolls  atomic.Int64
 }
 
@@ -759,6 +760,16 @@ func (c *checker) experiment(sc stateCase, orig []byte, us []*uobj, qs []query, 
 		r.Fatal("observe reference: %v", err)
 	}
 	db.Close()
+	{
+		var ks []string
+		for k, v := range refObs {
+			if strings.Contains(k, "/status/") || strings.HasPrefix(k, "counters/total") {
+				ks = append(ks, k[strings.Index(k, "/")+1:]+"="+v)
+			}
+		}
+		sort.Strings(ks)
+		c.obsSeen.Store(strings.Join(ks, ";"), true)
+	}
 	refDump, err := rawDump(refPath)
 	if err != nil {
 		r.Fatal("%v", err)
@@ -1178,7 +1189,10 @@ func main() {
 	r.Set("depth_completed", depthDone)
 	r.Set("poll_counts_seen(version/polls)", pc)
 	r.Set("max_interruption_points", c.maxPolls.Load())
-	r.Set("outcome_classes", len(pc))
+	nobs := 0
+	c.obsSeen.Range(func(_, _ any) bool { nobs++; return true })
+	r.Set("outcome_classes", nobs)
+	r.Set("outcome_classes_note", "distinct (status vector, counters) of the never-downgraded reference databases")
 	r.Rule("every operation sequence of length <= depth over 16 ops (10 puts incl. split children, tombstones, locks, absent target; garbage marks; Delete; InhumeContainer; epoch+4) on the real metabase, deduplicated by raw content -> for each distinct final state and for the bulk state (5900 objects in 3 containers, 2500 association entries and 2600 homomorphic index entries, container sizes hitting the 1000-entry batch boundary exactly): down-convert to format 10 and 9, upgrade uninterrupted and interrupted at EVERY poll k of the init context (and every second interruption k2), resume; evaluation = one upgrade run; non-trivial = state containing at least one association entry (the bulk state counts as one)")
 	r.Exhaustive(exhaustive)
 	r.Assume("old formats are fabricated from VERSION.md: base58 association values, homomorphic hash indexes, (format 9) global counters + container volume bucket 3 and no per-container counters; counters in the old file are the correct ones (a real old file may carry wrong counters, which the upgrade deliberately recomputes)",
